@@ -179,3 +179,8 @@ where
             .finish()
     }
 }
+
+#[cfg(swimos_verif)]
+pub mod verif_queues {
+    pub use super::queues::{SyncQueue, ToWrite, WriteQueues};
+}
